@@ -333,7 +333,7 @@ def value_chunk(args):
                 bad = None
                 if mode in ('c01', 'c09'):
                     bad = oracle_c01(sorted_copy(plain) if st[5] else plain, text)
-                    if bad and ('subclasses.' in text or 'Geometry.' in text):       # instances of the generated subclasses: evaluate with their module in scope
+                    if bad and ('subclasses.' in text or 'Geometry.' in text or '_verif_private.' in text):       # instances of the generated subclasses: evaluate with their module in scope
                         bad = oracle_eval_equal(plain, text)
                     if bad:
                         bad = {'kind': 'does-not-evaluate-back', 'why': bad}
@@ -596,7 +596,8 @@ def comments_section(tier, seed, mode='c09'):
 def oracle_eval_equal(value, text):
     import subclasses
     try:
-        scope = {'subclasses': subclasses, 'float': float, 'set': set, 'frozenset': frozenset, 'Geometry': subclasses.Geometry}
+        scope = {'subclasses': subclasses, 'float': float, 'set': set, 'frozenset': frozenset, 'Geometry': subclasses.Geometry,
+                 '_verif_private': sys.modules['_verif_private']}
         if '.from' in text or '.maketrans' in text:
             # callees that are methods of built-in types (dict.fromkeys, ...): evaluated through proxies that give the printed call back
             for t in (dict, bytes, int, str, float):
@@ -969,6 +970,44 @@ def trunc_chunk(args):
     return n, nt, mism, fails
 
 
+def limit_via_defaults_check(kind):
+    """the limit (`max_seq_len` or `depth`) given through set_default_config instead of as an argument, changed several times in one
+    interpreter - to a number, back to None, to another number - with prints in between: every print without the argument must equal
+    the print with the limit in force given explicitly"""
+    PKG = sys.modules['prettyprinter']
+    original = dict(PKG._default_config)
+    bad = []
+    vals = [list(range(8)), {'a': [1, 2, 3, [4, [5, 6]]], 'b': (1, 2, 3, 4)}, [[1, [2, [3, [4]]]], {1, 2, 3, 4, 5}]]
+    seqs = [[2, None, 3], [None, 1, 1000 if kind == 'max_seq_len' else 5, 2], [3, 3, None, None, 1]]
+    try:
+        for v in vals:
+            for seq in seqs:
+                PKG._default_config = dict(original)
+                with warnings.catch_warnings():
+                    warnings.simplefilter('ignore')
+                    pp.pformat(v)
+                    pp.pformat(v, width=30)
+                    for step, lim in enumerate(seq):
+                        pp.set_default_config(**{kind: lim})
+                        for w in (79, 30):
+                            try:
+                                got = pp.pformat(v, width=w)
+                                want = pp.pformat(v, width=w, **{kind: lim})
+                            except Exception as e:
+                                got, want = 'EXC:' + type(e).__name__, None
+                            if got != want:
+                                bad.append({'kind': 'limit-through-defaults-not-in-force', 'why': 'after set_default_config(%s=%r) (step %d of %r) pformat(v, width=%d) differs from pformat(v, width=%d, %s=%r)' % (
+                                    kind, lim, step + 1, seq, w, w, kind, lim), 'value': repr(v), 'text': (got or '')[:300], 'expected': (want or '')[:300]})
+                                break
+                        if bad and bad[-1]['value'] == repr(v):
+                            break
+                if len(bad) >= 3:
+                    return bad
+    finally:
+        PKG._default_config = dict(original)
+    return bad
+
+
 def truncation_section(tier, seed):
     rng = random.Random(seed * 19 + 2)
     vals = []
@@ -990,7 +1029,8 @@ def truncation_section(tier, seed):
             nt += t
             mism.extend(mm)
             fails.extend(ff)
-    stats = {'evaluations': tot, 'distinct_nontrivial': nt, 'values': len(vals), 'mismatches': len(mism),
+    fails = list(fails) + limit_via_defaults_check('max_seq_len')
+    stats = {'evaluations': tot, 'distinct_nontrivial': nt, 'values': len(vals), 'mismatches': len(mism), 'limit_given_through_set_default_config': True,
              'samples': [{'value': repr(vals[0])[:200], 'max_seq_len': '1 .. maxlen+1, None'}],
              'rule': 'container trees x max_seq_len in {1 .. longest container + 1, None} x 2 widths; oracle: eval == first-N truncation at every level, '
                      'one "...and k more elements" comment per truncated container with k = len - N, None == larger-than-everything'}
@@ -1270,7 +1310,8 @@ def depth_section(tier, seed):
             nt += t
             mism.extend(mm)
             fails.extend(ff)
-    stats = {'evaluations': tot, 'distinct_nontrivial': nt, 'values': len(vals), 'mismatches': len(mism),
+    fails = list(fails) + limit_via_defaults_check('depth')
+    stats = {'evaluations': tot, 'distinct_nontrivial': nt, 'values': len(vals), 'mismatches': len(mism), 'limit_given_through_set_default_config': True,
              'samples': [{'value': repr(vals[0])[:200], 'depth': '0 .. height+2, None'}],
              'rule': 'container trees with unique leaves x depth in {0 .. height+2, None} x 2 widths; oracle: exactly the leaves nested in fewer than depth containers appear, depth > height == depth None'}
     return stats, mism, fails
